@@ -463,12 +463,10 @@ class C20(Check):
                         want = []
                         if idx[sid].get('method_doc'):
                             want.append(f'process of {sid}')
-                        if idx[sid].get('doc') and (is_gen or not want):
-                            # build_node() wraps process(): for a generic node the documentation of the wrapped
-                            # method or of the class are both the declared documentation
+                        if idx[sid].get('doc') and not want:
+                            # the documentation of process() comes first (for a generic node: the process() of the
+                            # base it was built from, found through the class hierarchy), then that of the class
                             want.append(f'node {sid} docstring')
-                        if is_gen and not idx[sid].get('doc'):
-                            want = []  # nothing declared on the class itself: inherited text is not checked
                         if sid in shared_generic:
                             want = []  # built from a shared base: the generated module declares no text for it
                         if want and n.data.doc not in want:
